@@ -48,12 +48,22 @@ class TrackingModel:
         f['ref_time'] = Struct([self.ref_ns])
         f['current_correction'] = FLin(self.c); f['root_delay'] = FLin(self.d); f['root_dispersion'] = FLin(self.r)
         f['last_update_interval'] = FLin(self.iv)
+        # the other float fields of the report (the bound and the class must not depend on them): arbitrary values
+        self.other = {}
+        for n in ('last_offset', 'rms_offset', 'freq_ppm', 'resid_freq_ppm', 'skew_ppm'):
+            if n in names:
+                self.other[n] = R('trk_' + n); f[n] = FLin(self.other[n])
+        self.stratum = I('trk_stratum')
+        if 'stratum' in names:
+            f['stratum'] = self.stratum
         self.value = Struct([f[n] for n in names])
 
-    def domain(self, neg_iv=False):
+    def domain(self, neg_iv=False, wide_ref=False):
+        lo_ref, hi_ref = (-2 ** 66, 2 ** 66) if wide_ref else (0, 2 ** 62)
         return [self.c >= -RANGE, self.c <= RANGE, self.d >= 0, self.d <= RANGE, self.r >= 0, self.r <= RANGE,
                 self.iv >= (-2 ** 40 if neg_iv else 0), self.iv <= 2 ** 40, self.leap >= 0, self.leap < 65536,
-                self.ref_ns >= 0, self.ref_ns < 2 ** 62, self.now_ns >= 0, self.now_ns < 2 ** 62, self.ref_id >= 0, self.ref_id < 2 ** 32]
+                self.ref_ns >= lo_ref, self.ref_ns < hi_ref, self.now_ns >= 0, self.now_ns < 2 ** 62, self.ref_id >= 0, self.ref_id < 2 ** 32,
+                self.stratum >= 0, self.stratum < 65536] + [z3.And(v >= -RANGE, v <= RANGE) for v in self.other.values()]
 
 
 def time_env(tm_now):
@@ -185,10 +195,10 @@ def f64_hex(x):
     return struct.pack('>d', x).hex()
 
 
-def native_extract(rp, c, d, r, iv, leap, age_ns, ref_id=0):
+def native_extract(rp, c, d, r, iv, leap, age_ns, ref_id=0, last_offset=None):
     """real extract_bound_from_tracking on wire floats nearest to the given values. returns dict with the values
     the code actually saw (after the ChronyFloat round trip), the bound and the status"""
-    out = rp.ask('extract %s %s %s %s %d %d %d' % (f64_hex(float(c)), f64_hex(float(d)), f64_hex(float(r)), f64_hex(float(iv)), leap, age_ns, ref_id))
+    out = rp.ask('extract %s %s %s %s %d %d %d%s' % (f64_hex(float(c)), f64_hex(float(d)), f64_hex(float(r)), f64_hex(float(iv)), leap, age_ns, ref_id, (' ' + f64_hex(float(last_offset))) if last_offset is not None else ''))
     if not out.startswith('ok'):
         return {'raw': out}
     f = dict(x.split('=') for x in out.split()[1:])
@@ -242,7 +252,8 @@ def check_c07(tier, seed):
             c, d, r, iv = [mval(m, x) for x in (tm.c, tm.d, tm.r, tm.iv)]
             leap = mval(m, tm.leap); age = mval(m, tm.now_ns) - mval(m, tm.ref_ns)
             for prof, p in (('dev', rp), ('release', rp2)):
-                nat = native_extract(p, c, d, r, iv if abs(iv) < 2 ** 30 else 1, leap, max(min(age, 2 ** 40), -10 ** 9))
+                lo = mval(m, tm.other['last_offset']) if 'last_offset' in tm.other else None
+                nat = native_extract(p, c, d, r, iv if abs(iv) < 2 ** 30 else 1, leap, max(min(age, 2 ** 40), -10 ** 9), last_offset=(float(lo) if lo is not None else None))
                 if 'bound' not in nat:
                     continue
                 bad = c07_oracle(nat)
@@ -251,8 +262,8 @@ def check_c07(tier, seed):
                     signed = (nat['c'] + nat['r'] + nat['d'] / 2) * NS
                     unsigned = (abs(nat['c']) + nat['r'] + nat['d'] / 2) * NS
                     kind = 'signed-offset' if (nat['c'] < 0 and unsigned - signed > 4 and abs(nat['bound'] - signed) <= 2) else name
-                    ck.violation(kind, '%s for wire values offset=%s delay=%s dispersion=%s: real extract_bound_from_tracking (%s) returned %d ns' %
-                                 ('; '.join(bad), float(nat['c']), float(nat['d']), float(nat['r']), prof, nat['bound']),
+                    ck.violation(kind, '%s for wire values offset=%s delay=%s dispersion=%s%s: real extract_bound_from_tracking (%s) returned %d ns' %
+                                 ('; '.join(bad), float(nat['c']), float(nat['d']), float(nat['r']), (' (and last_offset=%s, a field the bound does not depend on)' % float(lo)) if lo not in (None, 0) else '', prof, nat['bound']),
                                  {'cmd': nat['raw'], 'values_seen_by_the_code': {k: str(nat[k]) for k in ('c', 'd', 'r')}})
                     return bad[0]
             return None
@@ -402,14 +413,15 @@ def validate(ck, prog, tm, outs, ex, seed, n):
 
 
 # ------------------------------------------------------------------------------------------ C10
-def check_c10(tier, seed):
-    ck = Check('C10', tier, seed)
+def check_c10(tier, seed, owner=None):
+    """owner: run the classification clauses as part of another property's check (violations reported under `owner`, Check returned unfinished)"""
+    ck = Check(owner or 'C10', tier, seed)
     prog, mir_wall = load_dlib_program()
     tm = TrackingModel(prog)
     ex, fn, outs = run_extract(prog, tm)
     base(ck, ex, mir_wall, outs)
     pr = Prover(seed)
-    pr.add(tm.domain(neg_iv=True)); pr.add(ex.side)
+    pr.add(tm.domain(neg_iv=True, wide_ref=True)); pr.add(ex.side)
     age = tm.now_ns - tm.ref_ns
     age_s = z3.ToReal(age) / NS
     # a negative update interval (chronyd's clock stepped between two updates) makes every reference time "older than eight
@@ -425,7 +437,7 @@ def check_c10(tier, seed):
     def confirm(m):
         stats[0] += 1
         iv = mval(m, tm.iv); leap = mval(m, tm.leap); a = mval(m, tm.now_ns) - mval(m, tm.ref_ns)
-        if abs(iv) > 2 ** 31 or a > 2 ** 45 or a < -10 ** 12:
+        if abs(iv) > 2 ** 31 or abs(a) > 2 ** 66:
             return None
         for prof, p in (('dev', rp), ('release', rp2)):
             # the other wire values as the solver chose them (the classification must not depend on them)
@@ -450,6 +462,8 @@ def check_c10(tier, seed):
         k1, k2 = z3.Int('hint_k1'), z3.Int('hint_k2')
         k3 = z3.Int('hint_k3')
         hints = [[tm.iv * 16 == z3.ToReal(k1), tm.iv <= 4096, tm.iv >= -4096, (tm.now_ns - tm.ref_ns) == k2 * 1000000, k2 >= 0, k2 < 10 ** 9],
+                 # reference times centuries away from now, either side (integer widths of the age)
+                 [tm.iv * 16 == z3.ToReal(k1), tm.iv >= 1, tm.iv <= 4096, (tm.now_ns - tm.ref_ns) == k2 * 1000000000, z3.Or(k2 >= 2 ** 33, k2 <= -2 ** 33)],
                  # a non-zero interval of either sign (a zero divisor leaves a float quotient unconstrained in the encoding)
                  [tm.iv * 16 == z3.ToReal(k1), tm.iv <= -1, tm.iv >= -4096, (tm.now_ns - tm.ref_ns) == k2 * 1000000, k2 >= 1000, k2 < 10 ** 9, tm.leap <= 2],
                  [tm.iv * 16 == z3.ToReal(k1), tm.iv >= 1, tm.iv <= 4096, (tm.now_ns - tm.ref_ns) == k2 * 1000000, k2 >= 0, k2 < 10 ** 9],
@@ -475,6 +489,8 @@ def check_c10(tier, seed):
     ck.cov['counterexamples_replayed'], ck.cov['counterexamples_confirmed'] = stats
     tv = validate(ck, prog, tm, outs, ex, seed, 40 if tier == 'quick' else 300)
     ck.cov['traces_validated_against_impl'] = tv
+    if owner:
+        return ck
     # the class reaches the published record: process_clock_update after every short history (each FSM state)
     try:
         from .daemon_updater import report_status_part
